@@ -217,13 +217,14 @@ def design_level(chk, pid, thorough):
     if pid != 'C19':
         return []
     r = run_tlc('LatticeMC', 'LatticeMC_C19' + sx + '.cfg', workers=16, timeout=3000, seed=chk.seed + 1)
-    chk.tlc(r, 'LatticeMC C19scoped: DEBUG is neutral without non-emitting states and without exact ties (design level)')
+    chk.tlc(r, 'LatticeMC C19all: with the logger at DEBUG the observables are those of the default level (design level)')
     if r.invariant_violated:
-        raise common.MachineryError('design-level violation of C19scoped: ' + r.tail[-2500:])
-    if thorough:       # informational, thorough tier only: the unrestricted formula is expected to FAIL on the specification
-        rx = run_tlc('LatticeMC', 'LatticeMC_C19x' + sx + '.cfg', workers=16, timeout=3000, seed=chk.seed + 1, allow_violation=True)
-        chk.tlc(rx, 'LatticeMC C19all (expected to fail): TLC reproduces the recorded findings on the specification')
-        chk.cov['design_level_counterexample_to_unrestricted_C19'] = bool(rx.invariant_violated)
+        raise common.MachineryError('design-level violation of C19all: ' + r.tail[-2500:])
+    if thorough:
+        rx = run_tlc('LatticeMC', 'LatticeMC_C19x' + sx + '.cfg', workers=16, timeout=3000, seed=chk.seed + 1)
+        chk.tlc(rx, 'LatticeMC C19all on the non-emitting, node-state heavy scope (where the two repaired defects lived)')
+        if rx.invariant_violated:
+            raise common.MachineryError('design-level violation of C19all: ' + rx.tail[-2500:])
     # binding of the DEBUG model: TLC-enumerated behaviours with debug = TRUE replayed on the real BaseMatcher at DEBUG
     beh = lattice.behaviours_from_tlc(chk, 'LatticeMC_C19e' + sx + '.cfg', chk.seed + 1)
     runs, groups = [], []
